@@ -367,6 +367,18 @@ def w_devices_agree(ctx, rng, i):
         pa = float(np.sum(np.mean(np.abs(a) ** 2, axis=-1)))
         wa = float(U.p_ase(True, 1550e-9, G, NF, fs))
         ctx.check("devices.edfa", abs(pa - wa) <= 6 * wa * math.sqrt(1 / (2 * N)), f"EDFA ASE power {pa:.6g} W vs p_ase(BW_opt=fs) = {wa:.6g} W")
+        # the receiver model's ASE power behind an optical filter of bandwidth B does not know about simulation grids: the EDFA device
+        # with BW=B must deliver the same power on two grids within one process, and that power must be p_ase(BW_opt=B) times a
+        # filter-shape factor of order one
+        B = 2e9
+        pw = []
+        for fs2 in ((1.6e11, 4e10) if i % 2 else (4e10, 1.6e11)):
+            T.gv(sps=8, fs=fs2, wavelength=1550e-9)
+            yb = D.EDFA(T.optical_signal(np.zeros(2 ** 16, complex)), G, NF, B)
+            pw.append(float(np.sum(np.mean(np.abs(yb.noise[:, 2000:-2000]) ** 2, axis=-1))))
+        tolb = 6 * math.sqrt(1.6e11 / (B * 2 ** 16)) + 0.02
+        model_b = float(U.p_ase(True, 1550e-9, G, NF, B))
+        ctx.check("devices.edfa", abs(pw[1] / pw[0] - 1) <= tolb and 0.4 <= pw[0] / model_b <= 1.6, f"filtered EDFA ASE power on two grids {pw} W vs p_ase(BW_opt={B:.3g}) = {model_b:.6g} W")
     ctx.case(("dev", fs, round(math.log10(R_L), 1), i), sample=dict(fs=fs, r=r_, R_L=R_L, T=Tk, P=Pw, measured_over_model=s2 / want) if i < 2 else None)
 
 
